@@ -189,3 +189,65 @@ def to_rat(v) -> Rat:
     if isinstance(v, SymBool):
         return v.ind()
     return Rat.lift(v)
+
+
+def sb_leaves(v, out=None) -> set:
+    """Leaf keys of a boolean formula built from SymBools."""
+    if out is None:
+        out = set()
+    if isinstance(v, SymBool):
+        _key_leaves(v.key, out)
+    return out
+
+
+def _key_leaves(k, out):
+    if isinstance(k, tuple) and k and k[0] in ("and", "or") and all(isinstance(x, tuple) for x in k[1:]):
+        for x in k[1:]:
+            _key_leaves(x, out)
+    elif isinstance(k, tuple) and k and k[0] == "not" and len(k) == 2:
+        _key_leaves(k[1], out)
+    else:
+        out.add(k)
+
+
+def sb_eval(v, assign: dict) -> bool:
+    """Evaluate a boolean formula under an assignment of its leaves."""
+    if isinstance(v, bool):
+        return v
+    if isinstance(v, SymBool):
+        r = _key_eval(v.key, assign)
+        return (not r) if v.negated else r
+    raise AnalysisError(f"sb_eval of {v!r}")
+
+
+def _key_eval(k, assign):
+    if isinstance(k, tuple) and k and k[0] in ("and", "or") and all(isinstance(x, tuple) for x in k[1:]):
+        vals = [_key_eval(x, assign) for x in k[1:]]
+        return all(vals) if k[0] == "and" else any(vals)
+    if isinstance(k, tuple) and k and k[0] == "not" and len(k) == 2:
+        return not _key_eval(k[1], assign)
+    if k not in assign:
+        raise AnalysisError(f"unassigned boolean leaf {k!r}")
+    return assign[k]
+
+
+def sb_and(a, b):
+    if isinstance(a, bool):
+        return b if a else False
+    if isinstance(b, bool):
+        return a if b else False
+    return a.av_binop("and", b, False)
+
+
+def sb_or(a, b):
+    if isinstance(a, bool):
+        return True if a else b
+    if isinstance(b, bool):
+        return True if b else a
+    return a.av_binop("or", b, False)
+
+
+def sb_not(a):
+    if isinstance(a, bool):
+        return not a
+    return a.av_unop("not")
